@@ -362,6 +362,11 @@ func (g *Gen) EditVPN(v *GVPN) string {
 		}
 	case 16: // extra dynamic entry on device
 		seq := 65000 + g.Rng.Intn(100)
+		for _, dy := range v.Dyn {
+			if dy.Seq == seq {
+				return ""
+			}
+		}
 		v.Dyn = append(v.Dyn, &GDyn{Seq: seq, Name: fmt.Sprintf("old%d@example.com", seq),
 			ACL: &GACL{fmt.Sprintf("crypto-old-%d-DRC-0", seq), []string{g.plainACE()}}})
 		return "crypto-dynamic-extra"
